@@ -96,7 +96,7 @@ class table__m_e_t_a(DefaultTable.DefaultTable):
                 writer.begintag("hexdata", tag=tag)
                 writer.newline()
                 data = self.data[tag]
-                if min(data) >= 0x20 and max(data) <= 0x7E:
+                if data and min(data) >= 0x20 and max(data) <= 0x7E:
                     writer.comment("ascii: " + data.decode("ascii"))
                     writer.newline()
                 writer.dumphex(data)
